@@ -113,6 +113,7 @@ impl<P: Product> Model for Wrap<P> {
 
     fn next_state(&self, s: &Self::State, a: Self::Action) -> Option<Self::State> {
         self.steps.fetch_add(1, std::sync::atomic::Ordering::Relaxed);
+        let _g = super::watch::guard("e2-action", |t| t.push_str(&format!("{} depth {} action {a:?}", self.p.name(), s.depth)));
         let out = self.p.step(&s.inner, &a);
         let mut bad = None;
         if let Some((class, summary)) = out.bad {
